@@ -30,6 +30,8 @@ Inductive c09case :=
        (loads : option (option N * bytes * res pv))
        (expect : res (hdr * pv))
        (wire : option hdr)   (* the JSON object in the token's first segment, parsed by the harness itself *)
+       (forged : bool)       (* the harness made this token from a genuine one by changing authenticated octets
+                                (or presents it with another key): no holder of the key ever produced it *)
 (* calendar.timegm(t.utctimetuple()) as observed through convert_claims({"exp": t}) *)
 | CNd (t : dtime) (expect : res Z).
 
@@ -129,6 +131,14 @@ Definition header_kept_contract (tr : option (bool * hdr * bytes * targs * res b
   | _ => true
   end.
 
+(* the transport verdict for a forged token is "reject": contract used by
+   c09_forged_token_never_decodes, compared with the recorded verdict of the real transport *)
+Definition forged_contract (tr : option (bool * targs * res (hdr * bytes))) (forged : bool) : bool :=
+  match tr, forged with
+  | Some (_, _, Ok _), true => false
+  | _, _ => true
+  end.
+
 Definition c09_check (c : c09case) : bool :=
   match c with
   | CEnc h cl a e d tr ex ha ca =>
@@ -138,7 +148,9 @@ Definition c09_check (c : c09case) : bool :=
   | CConv cl e d ex ca =>
       let '(c', r) := convert_claims_g (pt_dumps d e) cl in
       res_eqb beqb r ex && claims_eqb c' ca
-  | CDec tok a d tr l ex w => res_eqb tok_eqb (run_dec tok a d tr l) ex && wire_contract tr w
+  | CDec tok a d tr l ex w f =>
+      res_eqb tok_eqb (run_dec tok a d tr l) ex && wire_contract tr w && forged_contract tr f
+      && (if f then match run_dec tok a d tr l with Ok _ => false | Err _ => true end else true)
   | CNd t e => res_eqb Z.eqb (numericdate t) e
   end.
 
@@ -154,6 +166,6 @@ Definition c09_show (c : c09case) : c09out :=
       let o := run_enc h cl a e d tr in
       OEnc (eo_result o) (eo_header o) (eo_work o) (eo_claims o)
   | CConv cl e d _ _ => let '(c', r) := convert_claims_g (pt_dumps d e) cl in OConv r c'
-  | CDec tok a d tr l _ _ => ODec (run_dec tok a d tr l)
+  | CDec tok a d tr l _ _ _ => ODec (run_dec tok a d tr l)
   | CNd t _ => ONd (numericdate t)
   end.
